@@ -1,5 +1,6 @@
 import EngineModel.Driver.Text
 import EngineModel.Format.V2
+import EngineModel.Impl.V1
 
 namespace EngineModel.Text
 open EngineModel.V2
@@ -63,5 +64,76 @@ def pTrack : P (Track × Bytes) := do
 def sTrack (v : Track × Bytes) : String :=
   unwords [hex64 v.1.sampleRate, showI64 v.1.samples, showI32 v.1.key, hex64 v.1.lo, hex64 v.1.mid,
     hex64 v.1.hi, hexBytes v.2]
+
+end EngineModel.Text
+
+/-! ### schema 1.x values -/
+namespace EngineModel.Text
+open EngineModel.Impl.V1
+
+def pGMarker : P GMarker := do
+  let i ← pI32; let o ← pF
+  pure ⟨i, o⟩
+def sGMarker (m : GMarker) : String := unwords [showI32 m.index, hex64 m.off]
+
+def sOptF : Option UInt64 → String
+  | some x => hex64 x | none => "none"
+
+def pBeat1 : P Beat := do
+  let sr ← pOpt pF; let sc ← pOpt pF
+  let d ← pList pGMarker; let a ← pList pGMarker
+  pure ⟨sr, sc, d, a⟩
+def sBeat1 (v : Beat) : String :=
+  unwords [sOptF v.sampleRate, sOptF v.sampleCount, sList sGMarker v.dflt, sList sGMarker v.adj]
+
+def entriesOfBytes : Bytes → Option (List Entry)
+  | [] => some []
+  | a :: b :: c :: d :: e :: f :: r => (entriesOfBytes r).map (⟨a, b, c, d, e, f⟩ :: ·)
+  | _ => none
+def bytesOfEntries (l : List Entry) : Bytes := l.flatMap fun e => [e.lv, e.mv, e.hv, e.lo, e.mo, e.ho]
+
+def pWave : P Wave := do
+  let spe ← pF
+  let b ← pBytes
+  match entriesOfBytes b with
+  | some es => pure ⟨spe, es⟩
+  | none => failure
+def sWave (w : Wave) : String := unwords [hex64 w.spe, hexBytes (bytesOfEntries w.entries)]
+
+def pSomeNone {α} (p : P α) : P (Option α) := do
+  let t ← tok
+  if t = "none" then pure none
+  else if t = "some" then do let a ← p; pure (some a)
+  else failure
+
+def pHotCue : P HotCue := do
+  let l ← pBytes; let o ← pF; let c ← pColor
+  pure ⟨l, o, c⟩
+def sOptCue : Option HotCue → String
+  | none => "none"
+  | some q => unwords ["some", hexBytes q.label, hex64 q.off, sColor q.color]
+
+def pCues1 : P Impl.V1.Cues := do
+  let cs ← pList (pSomeNone pHotCue)
+  let a ← pF; let d ← pF
+  pure ⟨cs, a, d⟩
+def sCues1 (v : Impl.V1.Cues) : String := unwords [sList sOptCue v.cues, hex64 v.adjMain, hex64 v.defMain]
+
+def pLoopV : P LoopV := do
+  let l ← pBytes; let s ← pF; let e ← pF; let c ← pColor
+  pure ⟨l, s, e, c⟩
+def sOptLoop : Option LoopV → String
+  | none => "none"
+  | some l => unwords ["some", hexBytes l.label, hex64 l.start, hex64 l.stop, sColor l.color]
+
+def pLoops1 : P Impl.V1.Loops := pList (pSomeNone pLoopV)
+def sLoops1 (v : Impl.V1.Loops) : String := sList sOptLoop v
+
+def pTrack1 : P Impl.V1.Track := do
+  let sr ← pOpt pF; let sc ← pOpt pI64; let l ← pOpt pF; let k ← pOpt pI32
+  pure ⟨sr, sc, l, k⟩
+def sTrack1 (v : Impl.V1.Track) : String :=
+  unwords [sOptF v.sampleRate, (match v.sampleCount with | some x => showI64 x | none => "none"),
+    sOptF v.loudness, (match v.key with | some k => showI32 k | none => "none")]
 
 end EngineModel.Text
